@@ -112,11 +112,29 @@ def flag_algebra(ctx, R, rule):
         rows = [{'name': 'Result::Ok -> not incomplete', 'cond': [('isvar', s, 'Ok')], 'ret': T.FALSE},
                 {'name': 'Result::Err(e) -> e.is_incomplete()', 'cond': [('isvar', s, 'Err')], 'ret': call}]
         check_rows(R, rule, p, outs, rows)
-    # HeaderResult delegates
+    # HeaderResult: the flag of the wrapped result - Ok is complete, Err(e) has the class of e (semantic comparison over the fully inlined
+    # method, so it does not matter whether the impl delegates to Result's impl or matches the nested patterns itself)
     p = ctx.method('HeaderResult<>', 'is_incomplete', 'PartialResult')
-    ev, outs = ctx.entry(p, abstract={ctx.method('std::result::Result<T, E>', 'is_incomplete', 'PartialResult'): 'result_is_incomplete'})
+    ev, outs = ctx.entry(p)
     if outs:
         s = P(ctx, p, 0)
-        rows = [{'name': 'HeaderResult::%s delegates' % v, 'cond': [('isvar', s, v)],
-                 'ret': ('call', 'abs:result_is_incomplete', (('vfield', s, v, '0'),))} for v in ('V1', 'V2')]
-        check_rows(R, rule, p, outs, rows)
+        cases = []
+        for v, errenum in (('V1', tables.V1_BERR), ('V2', tables.V2_ERR)):
+            r = ('vfield', s, v, '0')
+            e = ('vfield', r, 'Err', '0')
+            cases.append(('%s(Ok)' % v, [('isvar', s, v), ('isvar', r, 'Ok')], T.FALSE))
+            if v == 'V1':
+                inner = ('vfield', e, 'Parse', '0')
+                for iv in ctx.fx.adts[tables.V1_ERR]['variants']:
+                    cases.append(('V1(Err(Parse(%s)))' % iv['name'], [('isvar', s, v), ('isvar', r, 'Err'), ('isvar', e, 'Parse'), ('isvar', inner, iv['name'])],
+                                  T.TRUE if iv['name'] in tables.V1_INCOMPLETE else T.FALSE))
+                for name in sorted(tables.V1B_TERMINAL):
+                    cases.append(('V1(Err(%s))' % name, [('isvar', s, v), ('isvar', r, 'Err'), ('isvar', e, name)], T.FALSE))
+            else:
+                for iv in ctx.fx.adts[tables.V2_ERR]['variants']:
+                    cases.append(('V2(Err(%s))' % iv['name'], [('isvar', s, v), ('isvar', r, 'Err'), ('isvar', e, iv['name'])],
+                                  T.TRUE if iv['name'] in tables.V2_INCOMPLETE else T.FALSE))
+        for name, cond, want in cases:
+            vals = {o['ret'] for o in outs if solver.sat(list(o['pc']) + cond)}
+            R.inst(rule, 'HeaderResult::is_incomplete/' + name, vals == {want}, expected='incomplete' if want == T.TRUE else 'complete',
+                   found=' | '.join(sorted(T.short(x) for x in vals)) or 'no outcome', entry=p)
